@@ -1,7 +1,43 @@
 import NrDaemon.Model.Proc
-/-! C01 — accepted data is delivered exactly once when the collector accepts (theorems added below as they are proved). -/
+import NrDaemon.Gen.SwapTable
+/-!
+  C01 — accepted data is delivered exactly once when the collector accepts.
 
-/-- **C01 (an empty container is never sent, a non-empty one is sent as exactly one request).** -/
+  `Gen.SwapTable` is regenerated from `processor.go` on every run: one row per container handled by
+  `harvestByType`, with the statement positions of "save the old container", "install a fresh one" and "hand the
+  saved one to the sender".
+-/
+open Gen.SwapTable
+
+def containers : List String :=
+  ["Metrics", "Errors", "SlowSQLs", "TxnTraces", "PhpPackages", "CustomEvents", "ErrorEvents", "TxnEvents", "SpanEvents", "LogEvents"]
+
+def expectedCfg : String → String
+  | "CustomEvents" => "CustomEventConfig" | "ErrorEvents" => "ErrorEventConfig" | "TxnEvents" => "AnalyticEventConfig"
+  | "SpanEvents" => "SpanEventConfig" | "LogEvents" => "LogEventConfig" | _ => ""
+
+def expectedGuard : String → String
+  | "CustomEvents" => "HarvestCustomEvents" | "ErrorEvents" => "HarvestErrorEvents" | "TxnEvents" => "HarvestTxnEvents"
+  | "SpanEvents" => "HarvestSpanEvents" | "LogEvents" => "HarvestLogEvents" | _ => "HarvestDefaultData"
+
+/-- **C01 (swap-then-send, by type; over the regenerated table).**  Each of the ten containers is handled by exactly
+one branch of `harvestByType`, under the harvest-type bit of its own category; in that branch the old container is
+saved, a fresh container is installed, and only then the saved one is handed to the sender; an event category is
+re-created with, and guarded by, the limit of its own category. -/
+theorem C01_swap_complete :
+    rows.map (·.field) = containers ∧
+    rows.all (fun r => r.guard == expectedGuard r.field && decide (0 ≤ r.saveIdx) && decide (r.saveIdx < r.installIdx) &&
+                       decide (r.installIdx < r.sendIdx) && r.sentSaved &&
+                       r.limitGuard == expectedCfg r.field && r.ctorArg == expectedCfg r.field) = true := by
+  decide
+
+/-- **C01 (swap-then-send, all at once).**  `harvestAll` sends each of the ten containers exactly once, and the
+caller installs a whole fresh `Harvest` before handing the old one over. -/
+theorem C01_harvest_all_complete :
+    allSends.length = 10 ∧ (∀ c ∈ containers, allSends.count c = 1) ∧ allInstallsBeforeSend = true := by
+  decide
+
+/-- **C01 (an empty container is never sent, a non-empty one becomes exactly one request).** -/
 theorem C01_consider_one_request (s : PState) (a : HArgs) (cat : Cat) (p : Payload) :
     (p.isEmpty = true → (consider s a cat p).2 = [] ∧ (consider s a cat p).1 = s) ∧
     (p.isEmpty = false → (consider s a cat p).2.length = 1 ∧
@@ -10,3 +46,4 @@ theorem C01_consider_one_request (s : PState) (a : HArgs) (cat : Cat) (p : Paylo
   constructor
   · intro h; simp [h]
   · intro h; simp [h]
+
